@@ -16,6 +16,12 @@ def build_harness():
         lock_src = os.path.join(REPO, 'Cargo.lock')
         p, dt = run(['cargo', 'build', '--offline', '--quiet'], cwd=HARNESS, timeout=1200)
         ok = p.returncode == 0 and os.path.exists(HARNESS_BIN)
+        if not ok:
+            # the O2 observer reads pyxis's internals; if those changed shape, fall back to the public API only
+            # (O1 and O3 still work, O2 observations are `(unavailable)`) so that a failing input can still be found
+            p2, dt2 = run(['cargo', 'build', '--offline', '--quiet', '--no-default-features'], cwd=HARNESS, timeout=1200)
+            if p2.returncode == 0 and os.path.exists(HARNESS_BIN):
+                return 'surface', (p.stderr or '')[-3000:], dt + dt2
         return ok, (p.stderr or '')[-3000:], dt
 
 def extract_tables():
@@ -157,7 +163,8 @@ def run_harness(case_lines, points, isolate=False, timeout_ms=5000, jobs=8, extr
         if isolate:
             cmd.append('--isolate')
         try:
-            p = _run_lines(cmd, chunk, timeout=600 + len(chunk) * (timeout_ms / 1000.0 + 1), env=env)
+            # in-process runs are fast (milliseconds per case); a chunk that takes this long is hanging
+            p = _run_lines(cmd, chunk, timeout=(600 + len(chunk) * (timeout_ms / 1000.0 + 1)) if isolate else (90 + len(chunk) * 0.25), env=env)
             out = parse_obs(p.stdout)
             rc = p.returncode
         except subprocess.TimeoutExpired:
